@@ -20,8 +20,8 @@ RULE = ("reduced-form indexed grammars (<=4 non-terminals, <=2 indices, <=8 rule
         "Non-trivial: >=3 rules incl. a production or duplication rule; distinct = hash of the rule set.")
 ASSUMPTIONS = ["oracle step limit: a case on which the reference fixpoint gives up is discarded, never judged"]
 TIERS = {
-    "quick": {"workers": 4, "random": 36, "products": 14},
-    "thorough": {"workers": 16, "random": 500, "products": 150, "pytest": True, "exhaustive": True, "hard_timeout": 3300},
+    "quick": {"workers": 8, "random": 60, "products": 8},
+    "thorough": {"workers": 16, "random": 1500, "products": 150, "pytest": True, "exhaustive": True, "hard_timeout": 3300},
 }
 MIN = {"quick": {"C17.IndexedGrammar.is_empty": 10000, "C17.IndexedGrammar.remove_useless_rules": 100,
                  "C17.IndexedGrammar.intersection": 30, "C17.Rules.__init__": 10000},
@@ -210,6 +210,54 @@ def rand_rules(rng, max_n=4):
     return rules
 
 
+def layered_rules(rng):
+    """grammars whose (non-)emptiness needs the marking to propagate through several layers: every non-terminal
+    X_i is defined from lower ones (end rule, duplication of two lower ones, production pushing an index towards a
+    lower one, consumption rules - possibly several with one target), S on top"""
+    names = ["S", "A", "B", "C", "D", "E"][:rng.randint(3, 6)]
+    order = names[1:]
+    rng.shuffle(order)
+    layers = order + ["S"]          # defined bottom-up; S last
+    rules = []
+    defined = []
+    pure = []
+    pure_target = None
+    for x in layers:
+        r = rng.random()
+        if not defined or r < 0.25:
+            rules.append(("end", x, rng.choice("ab")))
+        elif r < 0.6:
+            rules.append(("dup", x, rng.choice(defined), rng.choice(defined)))
+        elif r < 0.72:
+            rules.append(("prod", x, rng.choice(defined), "f"))
+        elif r < 0.86:
+            # x is defined by consumption rules only (derives something only below an f), often sharing its target
+            # with another such non-terminal
+            z = pure_target if (pure_target is not None and rng.random() < 0.7) else rng.choice(defined)
+            pure_target = z
+            rules.append(("cons", "f", x, z))
+            pure.append(x)
+        else:
+            y = rng.choice(defined)
+            z = rng.choice(defined)
+            rules.append(("prod", x, y, "f"))
+            rules.append(("cons", "f", y, z))
+            if rng.random() < 0.5:
+                rules.append(("cons", "f", rng.choice(defined), z))     # two consumption rules, one target
+        defined.append(x)
+    for x in pure:
+        # somebody pushes an f above a consumption-only non-terminal
+        users = [n for n in names if n != x]
+        rules.append(("prod", rng.choice(users), x, "f"))
+    if rng.random() < 0.3:
+        rules.append(("end", rng.choice(names), "b"))
+    out = []
+    for r in rules:
+        if r not in out:
+            out.append(r)
+    return out
+
+
 def tolib(rules, optim=7, start="S"):
     from pyformlang.indexed_grammar import (Rules, ConsumptionRule, EndRule, ProductionRule, DuplicationRule,
                                             IndexedGrammar)
@@ -238,8 +286,9 @@ def small_exhaustive():
 
 def plan(tier, rng, sl, nslices, stats):
     cfg = TIERS[tier]
-    for _ in range(cfg["random"]):
-        yield {"rules": [list(r) for r in rand_rules(rng)], "seed": rng.randrange(1 << 30)}
+    for i in range(cfg["random"]):
+        rules = layered_rules(rng) if i % 2 else rand_rules(rng)
+        yield {"rules": [list(r) for r in rules], "seed": rng.randrange(1 << 30)}
     for _ in range(cfg["products"]):
         fa = gfa.random_case(rng, max_states=2, max_syms=2, kinds=("dfa", "enfa"), vcs=["int", "str"])
         rules = [list(r) for r in rand_rules(rng, max_n=3)][:5]
@@ -296,10 +345,13 @@ def run_case(c, stats):
     if len(rules) <= 5:
         perms = list(itertools.permutations(rules))
     else:
-        perms = [tuple(rng.sample(rules, len(rules))) for _ in range(24)]
+        perms = [tuple(rules)] + [tuple(rng.sample(rules, len(rules))) for _ in range(40)]
     verdicts = set()
-    for perm in perms:
-        for optim in range(9):
+    for pi, perm in enumerate(perms):
+        # every ordering heuristic on the listed order and on 3 more permutations; the other permutations are run
+        # with optim 0 and one more heuristic (a heuristic only reorders the list, the permutations already do that)
+        optims = range(9) if pi < 4 else (0, 1 + (pi % 8))
+        for optim in optims:
             random.seed(c["seed"])          # optim 8 shuffles with the global random module
             ok, g = call(tolib, list(perm), optim)
             if not ok:
@@ -311,12 +363,13 @@ def run_case(c, stats):
         core.LOG.count("C17.order_independence")
         if len(verdicts) > 1:
             core.report(PROP, "order_independence", "verdict-depends-on-order-or-optim", None, tags_rules(rules))
-    ok, g = call(tolib, rules, 7)
-    if ok:
-        call(g.is_empty)
-        call(g.is_empty)                    # repeated on the same object (marked state kept)
-        ok, u = call(g.remove_useless_rules)
+    for j, perm in enumerate([tuple(rules)] + [tuple(rng.sample(rules, len(rules))) for _ in range(3)]):
+        ok, g = call(tolib, list(perm), 7 if j == 0 else rng.randrange(9))
         if ok:
-            call(u.is_empty)
-        call(lambda: bool(g))
+            call(g.is_empty)
+            call(g.is_empty)                    # repeated on the same object (marked state kept)
+            ok, u = call(g.remove_useless_rules)
+            if ok:
+                call(u.is_empty)
+            call(lambda: bool(g))
     return len(rules) >= 3 and any(r[0] in ("prod", "dup") for r in rules)
